@@ -865,7 +865,7 @@ class PMeasure(e1.Op):
         if kind == "bmps":
             fns = ["1site", "1site_all", "nsite", "nsite"]
             if set("lrtb") <= set(env_setup(g, e)):
-                fns += ["nn_all", "2site", "2site"]
+                fns += ["nn_all", "nn_all", "nn_all", "2site", "2site"]
             else:
                 fns += ["2site_v"]
         elif kind == "ctm":
@@ -882,6 +882,13 @@ class PMeasure(e1.Op):
             args["sites"] = [list(rng.choice(sites))]
         elif fn in ("nn", "nn_all"):
             args["ops"] = random_ops(g, sp, 2)
+            ch = [nm for nm in sp.charged()]
+            if ch and rng.random() < 0.5:      # odd-charge pairs are where strings and swaps matter
+                for _ in range(30):
+                    pr2 = [rng.choice(ch), rng.choice(ch)]
+                    if total_charge_zero(sp, pr2):
+                        args["ops"] = pr2
+                        break
             b = list(rng.choice(bonds))
             if fn == "nn" and rng.random() < 0.5 and kind != "bmps":
                 b = b[::-1]
@@ -891,6 +898,12 @@ class PMeasure(e1.Op):
             args["dirn"] = "v" if fn == "2site_v" else rng.choice("hv")
             args["pairs"] = rng.choice(["corner <=", "corner <", "row <=", "row <", "<=", "<", "<"])
             args["sites"] = []
+            if fn == "2site" and rng.random() < 0.4 and max(t.dims) >= 2:
+                # a sub-window of the lattice (ranges [r0, r1) of rows and columns); 'corner' / 'row' then refer to the window
+                def sub(n):
+                    a = rng.randrange(n)
+                    return [a, rng.randint(a + 1, n)]
+                args["xrange"], args["yrange"] = sub(t.dims[0]), sub(t.dims[1])
         elif fn == "2x2":
             x0, y0 = rng.randrange(t.dims[0] - 1), rng.randrange(t.dims[1] - 1)
             win = [(x0, y0), (x0 + 1, y0), (x0, y0 + 1), (x0 + 1, y0 + 1)]
@@ -933,7 +946,10 @@ class PMeasure(e1.Op):
                 return [("bonds", env.measure_nn(ops_[0], ops_[1]))]
             return [("bonds", env.measure_nn(ops_[0], ops_[1]))]
         if fn in ("2site", "2site_v"):
-            return [("pairs", env.measure_2site(ops_[0], ops_[1], pairs=ar["pairs"], dirn=ar["dirn"], opts_svd=dict(BIG_SVD)))]
+            kw = {}
+            if ar.get("xrange"):
+                kw = {"xrange": tuple(ar["xrange"]), "yrange": tuple(ar["yrange"])}
+            return [("pairs", env.measure_2site(ops_[0], ops_[1], pairs=ar["pairs"], dirn=ar["dirn"], opts_svd=dict(BIG_SVD), **kw))]
         f = {"2x2": "measure_2x2", "line": "measure_line", "nsite": "measure_nsite", "nsite_exact": "measure_nsite_exact"}[fn]
         if fn != "nsite":
             return [("val", getattr(env, f)(*ops_, sites=st))]
@@ -1012,6 +1028,26 @@ def check_measure(task, rec, result, esh, world, prop="C12", tol=1e-8):
     else:
         if not val and "=" in ar["pairs"]:
             raise V(prop, "coverage", "op %d measure_2site returned no pairs" % rec["id"])
+        # the documented selection of pairs (window, 'corner' / 'row' / all, '<' and '=' in the order of the set-up direction)
+        xr = ar.get("xrange") or [0, task.dims[0]]
+        yr = ar.get("yrange") or [0, task.dims[1]]
+        win = [(x, y) for x in range(*xr) for y in range(*yr)]
+        if "corner" in ar["pairs"]:
+            allp = [((xr[0], yr[0]), s1) for s1 in win]
+        elif "row" in ar["pairs"]:
+            allp = [((xr[0], y), s1) for y in range(*yr) for s1 in win]
+        else:
+            allp = [(s0, s1) for s0 in win for s1 in win]
+        so = (lambda q: q) if ar["dirn"] == "h" else (lambda q: q[::-1])
+        exp = set()
+        if "<" in ar["pairs"]:
+            exp |= {(a, b) for a, b in allp if so(a) < so(b)}
+        if "=" in ar["pairs"]:
+            exp |= {(a, b) for a, b in allp if a == b}
+        got = {(tuple(a)[:2], tuple(b)[:2]) for a, b in val}
+        if got != exp:
+            raise V(prop, "coverage", "op %d measure_2site(pairs=%r, dirn=%r, xrange=%s, yrange=%s) returned the pairs %s, documented selection is %s"
+                    % (rec["id"], ar["pairs"], ar["dirn"], xr, yr, sorted(got)[:6], sorted(exp)[:6]), fn=ar["fn"], env=esh.kind)
         for (s0, s1), v in val.items():
             cmp(v, [tuple(s0)[:2], tuple(s1)[:2]], "pair %s %s" % (tuple(s0), tuple(s1)))
     world.stats["measure_%s_%s" % (esh.kind, ar["fn"])] += 1
